@@ -17,8 +17,11 @@ mod tc_ext {
     // A-ETHNUM: stand-in for ethnum::U256 (external crate); only a field type of `TypeExpression` here.
     #[derive(Clone, Copy, PartialEq, Eq, Hash, Debug)]
     pub struct U256(pub [u128; 2]);
+    // A-CALLEE: `RuntimeBoxedVal` = Arc<SymbolicValue<()>> is OPAQUE here: a HashMap key with derived Hash/Eq.
+    #[derive(PartialEq, Eq, Hash)]
+    pub struct RuntimeBoxedVal { _p: u8 }
 }
-use tc_ext::U256;
+use tc_ext::{U256, RuntimeBoxedVal};
 
 verus! {
 
@@ -29,15 +32,12 @@ pub struct ExU256(U256);
 #[derive(Copy, Clone, Eq, Hash, PartialEq, Structural)]
 //@extract file=src/tc/state/type_variable.rs path="struct TypeVariable" kind=type
 //@end
-#[derive(Clone, Eq, Hash, PartialEq)]
 //@extract file=src/tc/expression.rs path="struct Span" kind=type
 //@end
 //@extract file=src/tc/expression.rs path="type TE" kind=type
 //@end
-#[derive(Clone, Copy, Eq, Hash, PartialEq)]
 //@extract file=src/tc/expression.rs path="enum WordUse" kind=type
 //@end
-#[derive(Clone, Eq, Hash, PartialEq)]
 //@extract file=src/tc/expression.rs path="enum TypeExpression" kind=type
 //@end
 //@extract file=src/tc/expression.rs path="type InferenceSet" kind=type
@@ -54,15 +54,13 @@ pub struct ExU256(U256);
 //@end
 }
 
-// A-DERIVE: the derived Hash/Eq of TypeVariable (one usize), TypeExpression and of the boxed runtime value obey
+// A-DERIVE: the derived Hash/Eq of TypeVariable (one usize) and of the boxed runtime value obey
 // vstd's key model (hash and == are deterministic functions of the spec value).
 pub broadcast axiom fn axiom_tv_key_model()
     ensures #[trigger] vstd::std_specs::hash::obeys_key_model::<TypeVariable>();
-pub broadcast axiom fn axiom_te_key_model()
-    ensures #[trigger] vstd::std_specs::hash::obeys_key_model::<TypeExpression>();
 pub broadcast axiom fn axiom_rbv_key_model()
     ensures #[trigger] vstd::std_specs::hash::obeys_key_model::<RuntimeBoxedVal>();
-pub broadcast group group_tc_keys { axiom_tv_key_model, axiom_te_key_model, axiom_rbv_key_model }
+pub broadcast group group_tc_keys { axiom_tv_key_model, axiom_rbv_key_model }
 
 // A-DERIVE: derived `==` on TypeVariable is equality of the spec value.
 impl vstd::std_specs::cmp::PartialEqSpecImpl for TypeVariable {
@@ -100,8 +98,9 @@ impl TCSV {
     { unimplemented!() }
 }
 // A-CALLEE: `RuntimeBoxedVal` = Arc<SymbolicValue<()>> is OPAQUE here (a HashMap key, see A-DERIVE above).
+#[verifier::external_type_specification]
 #[verifier::external_body]
-pub struct RuntimeBoxedVal { _p: u8 }
+pub struct ExRuntimeBoxedVal(RuntimeBoxedVal);
 impl RuntimeBoxedVal {
     #[verifier::external_body]
     pub fn instruction_pointer(&self) -> (r: u32) { unimplemented!() }
@@ -164,6 +163,11 @@ pub closed spec fn same_rest(a: &TypeCheckerState, b: &TypeCheckerState) -> bool
 }
 
 impl TypeCheckerState {
+    pub closed spec fn stable(&self) -> Map<RuntimeBoxedVal, TCBoxedVal> { self.stable_types@ }
+    pub closed spec fn src(&self) -> TypeVariableSource { self.tyvar_source }
+    pub closed spec fn forest(&self) -> UnificationForest { self.unification_result }
+    pub closed spec fn inf_map(&self) -> Map<TypeVariable, InferenceSet> { self.inferences@ }
+    pub closed spec fn val_map(&self) -> Map<TypeVariable, TCBoxedVal> { self.expressions@ }
     /// `tv` is registered: it has a judgement set
     pub closed spec fn knows(&self, tv: TypeVariable) -> bool { self.inferences@.contains_key(tv) }
     /// the typing judgements recorded for `tv`
@@ -172,8 +176,10 @@ impl TypeCheckerState {
     pub closed spec fn value_of(&self, tv: TypeVariable) -> TCBoxedVal { self.expressions@[tv] }
     /// the state's invariant w.r.t. its variable source: every variable it knows was issued by the source
     pub closed spec fn wf(&self) -> bool {
-        forall|tv: TypeVariable| (#[trigger] self.knows(tv) ==> self.tyvar_source.issued(tv))
-            && (#[trigger] self.has_value(tv) ==> self.tyvar_source.issued(tv))
+        &&& forall|tv: TypeVariable| #[trigger] self.inferences@.contains_key(tv) ==> self.tyvar_source.issued(tv)
+        &&& forall|tv: TypeVariable| #[trigger] self.expressions@.contains_key(tv) ==> self.tyvar_source.issued(tv)
+        &&& forall|k: RuntimeBoxedVal| #[trigger] self.stable_types@.contains_key(k) ==>
+                self.inferences@.contains_key(self.stable_types@[k].tv()) && self.expressions@.contains_key(self.stable_types@[k].tv())
     }
     /// "when `infer` does not panic": the variables it touches are known
     pub open spec fn infer_pre(&self, variable: TypeVariable, expression: TypeExpression) -> bool {
@@ -198,6 +204,48 @@ impl TypeCheckerState {
     }
 }
 
+// A-CALLEE: `is_stable_typed` (recursion through `children().into_iter().any(closure)`) is a deterministic
+// function of the value (`stable_typed`, uninterpreted): nothing else is assumed about WHICH values are stable.
+pub uninterp spec fn stable_typed(v: RuntimeBoxedVal) -> bool;
+
+/// the state only GROWS from `a` to `b`: known variables stay known with the very same judgement set, registered
+/// values stay registered, stable values keep their boxed value, the variable source only advances
+pub closed spec fn grows(a: &TypeCheckerState, b: &TypeCheckerState) -> bool {
+    &&& forall|tv: TypeVariable| #[trigger] a.inferences@.contains_key(tv) ==> b.inferences@.contains_key(tv) && b.inferences@[tv] == a.inferences@[tv]
+    &&& forall|tv: TypeVariable| #[trigger] a.expressions@.contains_key(tv) ==> b.expressions@.contains_key(tv) && b.expressions@[tv] == a.expressions@[tv]
+    &&& forall|k: RuntimeBoxedVal| #[trigger] a.stable_types@.contains_key(k) ==> b.stable_types@.contains_key(k) && b.stable_types@[k] == a.stable_types@[k]
+    &&& forall|tv: TypeVariable| #[trigger] a.tyvar_source.issued(tv) ==> b.tyvar_source.issued(tv)
+}
+/// `a` and `b` have the same judgements, values and stable values
+pub closed spec fn same_maps(a: &TypeCheckerState, b: &TypeCheckerState) -> bool {
+    a.inferences@ == b.inferences@ && a.expressions@ == b.expressions@ && a.stable_types@ == b.stable_types@ && a.tyvar_source == b.tyvar_source
+}
+/// the value was registered before as a stable-typed one
+pub open spec fn shared(s: &TypeCheckerState, value: RuntimeBoxedVal) -> bool { stable_typed(value) && s.stable().contains_key(value) }
+/// C11 / C14: what registering `value` does, `out` being the boxed value handed back
+pub open spec fn reg_post(pre: &TypeCheckerState, post: &TypeCheckerState, value: RuntimeBoxedVal, out: TCBoxedVal) -> bool {
+    &&& post.wf()
+    &&& grows(pre, post)
+    &&& post.knows(out.tv()) && post.has_value(out.tv())
+    &&& shared(pre, value) ==> out == pre.stable()[value] && same_maps(pre, post)
+    &&& !shared(pre, value) ==> !pre.knows(out.tv()) && !pre.has_value(out.tv())
+            && post.judgements(out.tv()) =~= Set::<TypeExpression>::empty() && post.value_of(out.tv()) == out
+    &&& stable_typed(value) ==> post.stable().contains_key(value) && post.stable()[value] == out
+    &&& !stable_typed(value) ==> post.stable().contains_key(value) == pre.stable().contains_key(value)
+}
+
+// A-OPAQUE (R-OPAQUE): stands for the 66-arm `match (*value).clone().consume().data { .. }` of register_internal,
+// i.e. the recursive registration of the children and the rebuilding of the payload. Assumed FRAME only: the state
+// only grows (`grows`), the invariant `wf` is kept, and `value` itself (its children are strict subterms) is not
+// entered into `stable_types`. NOTHING is assumed about the payload built.
+#[verifier::external_body]
+fn register_children(s: &mut TypeCheckerState, value: &RuntimeBoxedVal) -> (d: TCSVD)
+    requires old(s).wf(),
+    ensures
+        grows(old(s), final(s)), final(s).wf(),
+        final(s).stable_types@.contains_key(*value) == old(s).stable_types@.contains_key(*value),
+{ unimplemented!() }
+
 //@extract file=src/tc/state/mod.rs path="impl TypeCheckerState" kind=header
 //@end
 //@extract file=src/tc/state/mod.rs path="impl TypeCheckerState|fn empty" props=C14
@@ -205,7 +253,7 @@ impl TypeCheckerState {
 //@spec
         ensures
             forall|tv: TypeVariable| !r.knows(tv) && !r.has_value(tv),                                //@ob C14.tc_state.empty.no_variable_known
-            r.stable_types@ == Map::<RuntimeBoxedVal, TCBoxedVal>::empty(),
+            r.stable() == Map::<RuntimeBoxedVal, TCBoxedVal>::empty(),
             r.wf(),
 //@proof entry
         broadcast use vstd::std_specs::hash::group_hash_axioms;
@@ -233,7 +281,7 @@ let variable = variable;
 let expression = expression.into();
 //@new
 let expression = expression;
-//@rw R-CALL count=2
+//@rw R-CALL count=any
 //@old
 self.inferences.get_mut($1).unwrap().insert($2);
 //@new
@@ -350,14 +398,66 @@ let variable = variable;
 //@extract file=src/tc/state/mod.rs path="impl TypeCheckerState|fn set_result"
 //@spec
         ensures
-            final(self).unification_result == result,
-            final(self).inferences == old(self).inferences, final(self).expressions == old(self).expressions,   //@ob C14.tc_state.set_result.judgements_untouched
-            final(self).stable_types == old(self).stable_types, final(self).tyvar_source == old(self).tyvar_source,
+            final(self).forest() == result,
+            final(self).inf_map() == old(self).inf_map(), final(self).val_map() == old(self).val_map(),   //@ob C14.tc_state.set_result.judgements_untouched
+            final(self).stable() == old(self).stable(), final(self).src() == old(self).src(),
 //@end
 //@extract file=src/tc/state/mod.rs path="impl TypeCheckerState|fn tyvar_count"
 //@ret r
 //@spec
-        ensures r == self.tyvar_source.count(),
+        ensures r == self.src().count(),
+//@end
+
+    // A-CALLEE: see `stable_typed`
+    #[verifier::external_body]
+    fn is_stable_typed(value: &RuntimeBoxedVal) -> (r: bool) ensures r == stable_typed(*value) { unimplemented!() }
+
+//@extract file=src/tc/state/mod.rs path="impl TypeCheckerState|fn register_internal" props=C11,C14,C01
+//@ret out
+//@rw R-OPAQUE
+//@old
+let new_data = match (*value).clone().consume().data { $1 };
+//@new
+let new_data = register_children(self, &value);
+//@rw R-ENTRY optional
+//@old
+self.expressions.entry($1).or_insert($2);
+//@new
+if !self.expressions.contains_key(&$1) { self.expressions.insert($1, $2); }
+//@rw R-ENTRY optional
+//@old
+self.inferences.entry($1).or_insert($2);
+//@new
+if !self.inferences.contains_key(&$1) { self.inferences.insert($1, $2); }
+//@spec
+        requires
+            old(self).wf(),
+        ensures
+            final(self).wf(),
+            grows(old(self), final(self)),                                                            //@ob C14.tc_state.register_internal.existing_variables_keep_sets_and_values
+            shared(old(self), value) ==> out == old(self).stable()[value] && same_maps(old(self), final(self)),   //@ob C11.tc_state.register_internal.stable_value_gets_the_same_boxed_value
+            !shared(old(self), value) ==> !old(self).knows(out.tv()) && !old(self).has_value(out.tv()),   //@ob C11.tc_state.register_internal.fresh_variable
+            final(self).knows(out.tv()) && final(self).has_value(out.tv()),                           //@ob C14.tc_state.register_internal.variable_becomes_known
+            !shared(old(self), value) ==> final(self).judgements(out.tv()) =~= Set::<TypeExpression>::empty(),   //@ob C14.tc_state.register_internal.starts_with_no_judgement
+            !shared(old(self), value) ==> final(self).value_of(out.tv()) == out,                      //@ob C11.tc_state.register_internal.variable_maps_to_the_value
+            stable_typed(value) ==> final(self).stable().contains_key(value) && final(self).stable()[value] == out,   //@ob C11.tc_state.register_internal.stable_value_is_remembered
+            !stable_typed(value) ==> final(self).stable().contains_key(value) == old(self).stable().contains_key(value),   //@ob C11.tc_state.register_internal.only_stable_values_are_shared
+            reg_post(old(self), final(self), value, out),
+//@proof entry
+        broadcast use vstd::std_specs::hash::group_hash_axioms;
+        broadcast use group_tc_keys;
+//@end
+
+//@extract file=src/tc/state/mod.rs path="impl TypeCheckerState|fn register" props=C11,C14,C01
+//@ret r
+//@spec
+        requires
+            old(self).wf(),
+        ensures
+            exists|out: TCBoxedVal| out.tv() == r && #[trigger] reg_post(old(self), final(self), value, out),   //@ob C11.tc_state.register.returns_the_registered_values_variable
+            shared(old(self), value) ==> r == old(self).stable()[value].tv(),                         //@ob C14.tc_state.register.one_variable_per_stable_value
+            !shared(old(self), value) ==> !old(self).knows(r),                                        //@ob C11.tc_state.register.fresh_variable
+            final(self).knows(r),                                                                     //@ob C01.tc_state.register.result_is_known
 //@end
 
 //@extract file=src/tc/state/mod.rs path="impl TypeCheckerState|fn allocate_ty_var" props=C14,C11
@@ -367,12 +467,12 @@ let variable = variable;
 pub unsafe fn allocate_ty_var
 //@new
 pub fn allocate_ty_var
-//@rw R-ENTRY
+//@rw R-ENTRY optional
 //@old
 self.expressions.entry($1).or_insert($2);
 //@new
 if !self.expressions.contains_key(&$1) { self.expressions.insert($1, $2); }
-//@rw R-ENTRY
+//@rw R-ENTRY optional
 //@old
 self.inferences.entry($1).or_insert($2);
 //@new
@@ -384,10 +484,10 @@ if !self.inferences.contains_key(&$1) { self.inferences.insert($1, $2); }
             final(self).judgements(r) =~= (if old(self).knows(r) { old(self).judgements(r) } else { Set::<TypeExpression>::empty() }),   //@ob C14.tc_state.allocate_ty_var.starts_with_no_judgement
             forall|tv: TypeVariable| tv != r ==> final(self).knows(tv) == old(self).knows(tv)
                 && final(self).has_value(tv) == old(self).has_value(tv),                              //@ob C14.tc_state.allocate_ty_var.only_one_variable_added
-            forall|tv: TypeVariable| old(self).knows(tv) ==> final(self).inferences@[tv] == old(self).inferences@[tv],   //@ob C14.tc_state.allocate_ty_var.existing_judgements_kept
+            forall|tv: TypeVariable| old(self).knows(tv) ==> final(self).inf_map()[tv] == old(self).inf_map()[tv],   //@ob C14.tc_state.allocate_ty_var.existing_judgements_kept
             forall|tv: TypeVariable| old(self).has_value(tv) ==> final(self).value_of(tv) == old(self).value_of(tv),   //@ob C14.tc_state.allocate_ty_var.existing_values_kept
             !old(self).has_value(r) ==> final(self).value_of(r).tv() == r,                            //@ob C11.tc_state.allocate_ty_var.value_carries_its_variable
-            final(self).stable_types == old(self).stable_types,
+            final(self).stable() == old(self).stable(),
             old(self).wf() ==> final(self).wf(),
 //@proof entry
         broadcast use vstd::std_specs::hash::group_hash_axioms;
@@ -395,6 +495,19 @@ if !self.inferences.contains_key(&$1) { self.inferences.insert($1, $2); }
 //@end
 }
 
-// A-CANARY-free: nothing below
+//@extract file=src/tc/state/mod.rs path="impl Default for TypeCheckerState" kind=header
+//@end
+//@extract file=src/tc/state/mod.rs path="impl Default for TypeCheckerState|fn default" props=C14
+//@ret r
+//@spec
+        ensures
+            forall|tv: TypeVariable| !r.knows(tv) && !r.has_value(tv),                                //@ob C14.tc_state.default.no_variable_known
+            r.wf(),
+//@end
+}
 } // verus!
 fn main() {}
+//@dropped TypeCheckerState::{infer_many, infer_for_many} (closures / array::from_fn), inferences_cloned (iterator chain), set_inferences, inferences_mut, result (&mut return), values, variables, pairs, pairs_cloned, clear: not under contract
+//@dropped register_internal: the 66-arm match (recursive registration of the children) is replaced by the opaque callee register_children (R-OPAQUE) with an ASSUMED frame; the payload built is not specified
+//@dropped TypeVariableSource::{new, fresh, allocated_count} (Arc<AtomicUsize>): stand-in with assumed contract; wrap-around of fetch_add after usize::MAX allocations not modelled
+//@dropped is_stable_typed: uninterpreted predicate
